@@ -75,6 +75,9 @@ func Check09(c Case09, r *core.Rec) {
 	}
 	var outs [4]outcome
 	for i, s := range spellings {
+		// an unrelated call with the byte-identical host text under a non-special scheme comes first:
+		// the result for the special URL must not depend on it
+		_, _ = url.Parse("foo://" + s + "/")
 		u, err := url.Parse(c.Scheme + "://" + s + "/")
 		if err != nil || u == nil {
 			outs[i] = outcome{err: errString(err)}
@@ -152,6 +155,16 @@ func Check09(c Case09, r *core.Rec) {
 				return
 			}
 			r.Class("ascii:exact")
+		}
+	}
+	// (i) again, on a special URL reached through the protocol setter: a non-special URL with this host
+	// text must refuse a special scheme in any letter case; if it ever becomes special its host must be
+	// a normalised domain
+	if v, err := url.Parse("foo://" + spellings[1] + "/"); err == nil && v != nil {
+		v.SetProtocol(flipBy(c.Scheme, c.Flip))
+		if v.IsSpecialScheme() {
+			r.Failf("foo://%s/ became the special URL %s through SetProtocol(%q)", quote(spellings[1]), v.Href(false), flipBy(c.Scheme, c.Flip))
+			return
 		}
 	}
 	// (iv) file + localhost
